@@ -78,7 +78,9 @@ package cte
 //@ func (*arrayEncoderEngine).writeSpaceIfNotFirstElement
 //@   requires BufOK(_this.stream) && !wfailed
 //@   modifies _this.hasWrittenElements, out, outLen, wfailed, Writer.Column, mem(_this.stream.Buffer)
-//@   ensures !wfailed
+//@   ensures !wfailed && _this.hasWrittenElements && outLen == old(outLen) + ite(old(_this.hasWrittenElements), uint64(1), uint64(0))
+//@   ensures old(_this.hasWrittenElements) ==> out[old(outLen)] == ' ' && outLen <= 0x10000000000
+//@   ensures forall j uint64 :: j < old(outLen) ==> out[j] == old(out[j])
 //@   xensures wfailed
 
 // ---------------------------------------------------------------------------------------------
@@ -461,3 +463,38 @@ package cte
 //@   loop 0 decreases len(data)
 
 // ---- END GENERATED ----
+
+// ---------------------------------------------------------------------------------------------
+// Media and custom binary arrays (C23): a data event of n bytes writes n two-digit hexadecimal
+// numbers separated by single spaces, preceded by one space if anything was written before; a data
+// event of no bytes writes nothing and leaves "anything written before" as it was - so the text does
+// not depend on how the bytes were divided among data events (defect fixed in 6d0e496).
+//@ func (*Writer).WriteHexBytes
+//@   requires _this.writer != nil && !wfailed && len(value) <= 0x10000000 && outLen <= 0x10000000000
+//@   modifies out, outLen, wfailed, _this.Buffer, memall(uint8), alloc
+//@   ensures !wfailed && outLen == old(outLen) + ite(len(value) == 0, uint64(0), uint64(3 * len(value) - 1))
+//@   ensures forall j uint64 :: j < old(outLen) ==> out[j] == old(out[j])
+//@   xensures wfailed
+//@   loop 0 modifies mem(dst)
+//@   loop 0 invariant 0 - 1 <= rangeindex && rangeindex < len(value) && len(dst) >= 3 * len(value) - 1 && length == 3 * len(value) - 1 && dst == _this.Buffer
+//@   loop 0 invariant offset == ite(rangeindex < 0, 0, 3 * rangeindex + 2)
+//@   loop 0 decreases len(value) - rangeindex
+
+//@ func (*arrayEncoderEngine).BeginMedia$1
+//@   requires _this != nil && BufOK(_this.stream) && !wfailed && len(data) <= 0x10000000 && outLen <= 0x10000000000
+//@   modifies arrayEncoderEngine.hasWrittenElements, out, outLen, wfailed, Writer.Column, Writer.Buffer, memall(uint8), alloc
+//@   ensures !wfailed
+//@   ensures len(data) == 0 ==> outLen == old(outLen) && _this.hasWrittenElements == old(_this.hasWrittenElements)
+//@   ensures len(data) > 0 ==> _this.hasWrittenElements && outLen == old(outLen) + uint64(3 * len(data) - 1) + ite(old(_this.hasWrittenElements), uint64(1), uint64(0))
+//@   ensures len(data) > 0 && old(_this.hasWrittenElements) ==> out[old(outLen)] == ' '
+//@   ensures forall j uint64 :: j < old(outLen) ==> out[j] == old(out[j])
+//@   xensures wfailed
+//@ func (*arrayEncoderEngine).BeginCustomBinary$1
+//@   requires _this != nil && BufOK(_this.stream) && !wfailed && len(data) <= 0x10000000 && outLen <= 0x10000000000
+//@   modifies arrayEncoderEngine.hasWrittenElements, out, outLen, wfailed, Writer.Column, Writer.Buffer, memall(uint8), alloc
+//@   ensures !wfailed
+//@   ensures len(data) == 0 ==> outLen == old(outLen) && _this.hasWrittenElements == old(_this.hasWrittenElements)
+//@   ensures len(data) > 0 ==> _this.hasWrittenElements && outLen == old(outLen) + uint64(3 * len(data) - 1) + ite(old(_this.hasWrittenElements), uint64(1), uint64(0))
+//@   ensures len(data) > 0 && old(_this.hasWrittenElements) ==> out[old(outLen)] == ' '
+//@   ensures forall j uint64 :: j < old(outLen) ==> out[j] == old(out[j])
+//@   xensures wfailed
